@@ -359,8 +359,13 @@ def table_violation(chk, failed_names, diag, extra=None, dynamic_found=False):
         rep["rows"] = diag.get("rows")
         rep["oracle_verdict"] = ("the lock discipline / lock order / router table regenerated from the working tree fails its checker on "
                                  "CLASSIFIED rows: the listed accesses conflict without a common lock (or a lock is requested against the "
-                                 "order, or a group-keyed type is not hashed), so lockset_sound no longer applies")
-        found = bool(diag.get("rows"))
+                                 "order, a channel operation happens under a lock, or a group-keyed type is not hashed), so lockset_sound no "
+                                 "longer applies. Dynamic search (scheduler schedules + router probe + -race stress): %s"
+                                 % ("confirmed by failing inputs, reported separately" if dynamic_found else
+                                    "found nothing - the rows may also come from an imprecision of the translator; no failing input is claimed"))
+        # a table row alone is a claim about the code only as far as the translator is precise: without a confirming
+        # schedule / race report the verdict says so
+        found = bool(diag.get("rows")) and dynamic_found
     if extra:
         rep.update(extra)
     chk.violation("table", rep, found_input=found)
@@ -527,8 +532,9 @@ def run(chk, failed):
     elif failed:
         stress_rep = None
         unclassified = bool(diag and diag.get("unclassified"))
-        if diag and (unclassified or diag.get("race_free") is False) and os.environ.get("VERIF_C08_STRESS", "1") != "0":
-            stress_rep = stress(chk, 10 if unclassified else 5)
+        found_so_far = bool(oracle_hits or mism or rbad)
+        if diag and (unclassified or not found_so_far) and os.environ.get("VERIF_C08_STRESS", "1") != "0":
+            stress_rep = stress(chk, 10)
             if stress_rep.get("data_races") or stress_rep.get("fatal"):
                 chk.violation("race_stress", {"kind": "schedule", "probe": "storage/TestVerifProbeStorageconcStress (-race)", "report": stress_rep,
                                               "broken": "lockset_sound (data race observed at run time)",
